@@ -17,7 +17,7 @@ RULE = ("a real RF24Mesh master and 1..12 RF24MeshNoMaster/RF24Mesh joiners with
         "no-exception, termination and valid-or-None. The C16 table invariant is evaluated on the "
         "master after every update(). Non-trivial: >=1 lease granted or refused; distinct = "
         "(joiner count, relay use, profile class, medium, script shape).")
-RULE += (" Later rounds added: deep narrow trees joined through level-2/3 relays, timeouts sized to the joiner count, a quiet network before every turn, origin stamp of frames the master originates, injected late duplicate requests, master-expired leases, send to the own ID, the master's trivial answers, an orphaned child, concurrent lookups (an answer is the mapping or -1), block_less_callback. Directed ID sets whose numbers are also addresses other nodes are given; a foreign poll heard while re-joining; two leaves that swap addresses (release, release, re-join in the swapping order) with a third node sending to both before and after.")
+RULE += (" Later rounds added: deep narrow trees joined through level-2/3 relays, timeouts sized to the joiner count, a quiet network before every turn, origin stamp of frames the master originates, injected late duplicate requests, master-expired leases, send to the own ID, the master's trivial answers, an orphaned child, concurrent lookups (an answer is the mapping or -1), block_less_callback. Directed ID sets whose numbers are also addresses other nodes are given; a foreign poll heard while re-joining; two leaves that swap addresses (release, release, re-join in the swapping order) with a third node sending to both before and after. A single relay below a full master: its address verification fails once (master busy right after the lease) before a child needs it; it gives its address up and its only child re-joins meanwhile.")
 REQUIRED = {"join_result": 60, "address_distinct_and_recorded": 25, "lookup_codes": 150,
             "mesh_send_arrives": 30, "release_and_rejoin": 15, "check_connection": 60,
             "master_table_invariant": 2000}
@@ -26,6 +26,7 @@ BUDGET = {"quick": 600, "thorough": 2400}
 
 def gen_cases(ctx):
     yield from gen_directed(ctx)
+    yield from gen_single_relay(ctx)
     yield from _gen_cases(ctx)
 
 
@@ -77,6 +78,27 @@ def gen_directed(ctx):
                    "no_children": list(ids) if nc else [], "cls": {str(x): ["meshnm", "mesh"][(x + k) % 2] for x in ids},
                    "profiles": profs, "hostile": False, "seed": rng.getrandbits(30), "timeout": 7.5,
                    "unknown_id": 250, "swap": not nc}
+
+
+def gen_single_relay(ctx):
+    """four level-1 nodes that take no children, ONE node R that does, and a node C that can only
+    live below R.  (a) the master's application is busy for 400 ms right after it leased R its
+    address, so that R's verification of the new address fails once and R asks again; C joins
+    afterwards - R must accept children as before.  (b) the orphan phase: R gives its address up,
+    C notices and re-joins while R is away (a level-1 slot is free now), then R comes back."""
+    rng = ctx.sub_rng("c17r")
+    for ids, r_id in (([11, 12, 13, 14, 20, 30], 20), ([20, 11, 12, 13, 14, 30], 20), ([3, 4, 1, 2, 5, 9], 5)):
+        for stall in (None, 400, 320):
+            for orphan in (True, False):
+                if stall is None and not orphan:
+                    continue
+                profs = {str(x): N.rand_profile(rng, base=40000) for x in [0] + ids}
+                yield {"deep": False, "dup": False, "orphan": orphan, "conc": False, "ids": list(ids),
+                       "offsets": {str(x): 400 * j for j, x in enumerate(ids)},
+                       "no_children": [x for x in ids[:5] if x != r_id], "cls": {str(x): ["meshnm", "mesh"][x % 2] for x in ids},
+                       "profiles": profs, "hostile": False, "seed": rng.getrandbits(30), "timeout": 7.5,
+                       "unknown_id": 250, "swap": False,
+                       "master_stall": {"id": r_id, "ms": stall} if stall else None, "fam": "single-relay"}
 
 
 def run_case(ctx, case):
@@ -184,6 +206,14 @@ def _run(ctx, case, net):
     mres = {}
 
     def master_app(nn):
+        stall = case.get("master_stall")
+        if stall:
+            # the master's application is busy with something else for a while right after the
+            # lease of one particular ID was recorded (it does not call update() meanwhile)
+            pump_while(nn, lambda: st["done"] < len(ids) and stall["id"] not in nn.obj.dhcp_dict)
+            if stall["id"] in nn.obj.dhcp_dict:
+                nn.wnode.idle(stall["ms"] * W.MS)
+                ctx.count("master_application_stalls_after_a_lease")
         pump_while(nn, lambda: st["done"] < len(ids))
         pump_until(nn, nn.wnode.t + 30 * W.MS)
         # the documented trivial answers of the master itself
